@@ -9,13 +9,14 @@
   They hold over every linearly ordered field, for every memory size, every dimension and every
   history (induction; no bound).  Vectors are lists; "dimension n" is a length hypothesis.
 
-  Forced hypothesis (DESIGN §7-I): `apply_eq_dense` needs `RhoOK` (every stored `ρ` is `1/⟨y,s⟩`).
-  Every operation preserves it *except* `applyMasked`, which overwrites the stored `ρ` — see
-  `applyMasked_abs` (history unchanged) versus the missing `applyMasked_rhoOK`; the excluded
-  histories are run on the real code by `checks/c09.py` (known finding
-  `C09-apply-after-apply_masked-stored-rho-overwritten`).
+  `apply_eq_dense` needs `RhoOK` (every stored `ρ` is `1/⟨y,s⟩`).  Every operation preserves it,
+  including `applyMasked` (`applyMasked_rhoOK`) — for the *repaired* `apply_masked_impl`
+  (fixes/C09-apply_masked-stored-rho.diff; the shipped code overwrote the stored `ρ`, DESIGN §7-I,
+  known-findings `C09-apply-after-apply_masked-stored-rho-overwritten`, status fixed).  On the
+  unrepaired code the model and the implementation disagree and the monitors report the violation.
 -/
 import Alpaqa.Proofs.C09Ring
+import Alpaqa.Proofs.C09Masked
 import Mathlib.Tactic.NormNum
 
 namespace Alpaqa.Props.C09
@@ -384,12 +385,153 @@ theorem accepted_curvature_pos (p : Params α) (st : State α) (s y : Vec α) (p
   simp only [Bool.false_eq_true, false_or] at this
   exact updateValid_pos p _ _ _ this hf hm (by rw [sqNorm_eq_dot]; exact dot_self_nonneg s)
 
+/-! ## (e) the masked variant -/
+
+/-- The state `apply_masked` leaves behind (`threw`: unchanged). -/
+def maskedState (st : State α) : MaskedResult α → State α
+  | .threw => st
+  | .done st' _ _ => st'
+
+/-- The vector left in `q` and the `bool` result (`none`: it threw). -/
+def maskedOut : MaskedResult α → Option (Vec α × Bool)
+  | .threw => none
+  | .done _ q ok => some (q, ok)
+
+/-- `apply_masked` changes nothing of the state but the `α` row. -/
+theorem applyMasked_state (p : Params α) (st : State α) (q : Vec α) (γ : α) (J : List Nat) :
+    ∃ al, maskedState st (applyMasked p st q γ J) = { st with al := al } ∧
+      (st.al.length = st.slots.length → al.length = st.slots.length) := by
+  simp only [applyMasked]
+  split_ifs <;> first
+    | exact ⟨st.al, rfl, id⟩
+    | exact ⟨_, rfl, fun h => by rw [(mrev_length _ _ _ _ _ _).1]; exact h⟩
+
+/-- … so the abstract history is the same afterwards, -/
+theorem applyMasked_abs (p : Params α) (st : State α) (q : Vec α) (γ : α) (J : List Nat) :
+    (maskedState st (applyMasked p st q γ J)).abs = st.abs := by
+  obtain ⟨al, h, _⟩ := applyMasked_state p st q γ J
+  rw [h]; rfl
+
+theorem applyMasked_inv (p : Params α) (st : State α) (hI : Inv st) (q : Vec α) (γ : α)
+    (J : List Nat) : Inv (maskedState st (applyMasked p st q γ J)) := by
+  obtain ⟨al, h, hl⟩ := applyMasked_state p st q γ J
+  rw [h]; exact ⟨hI.pos, hI.idx_lt, hl hI.al_len⟩
+
+/-- … and the stored `ρ` stay the reciprocal curvatures of the *full* pairs (repaired code). -/
+theorem applyMasked_rhoOK (p : Params α) (st : State α) (q : Vec α) (γ : α) (J : List Nat)
+    (h : RhoOK st) : RhoOK (maskedState st (applyMasked p st q γ J)) := by
+  obtain ⟨al, h', _⟩ := applyMasked_state p st q γ J
+  rw [h']; exact h
+
+/-- The acceptance test of a pair restricted to `J` (`pᵀp = 0`, as the code passes it). -/
+def validJh (p : Params α) (fJ : Bool) (J : List Nat) (sy : Vec α × Vec α) : Bool :=
+  updateValid p (dotJ fJ J sy.1 sy.2) (dotJ fJ J sy.1 sy.1) 0
+
+/-- The history restricted to `J`: pairs invalid on `J` skipped, the others restricted. -/
+def restrictHist (p : Params α) (fJ : Bool) (J : List Nat) (hist : List (Vec α × Vec α)) :
+    List (Vec α × Vec α) :=
+  (hist.filter (validJh p fJ J)).map fun sy => (G fJ J sy.1, G fJ J sy.2)
+
+/-- The scaling `apply_masked` ends its first loop with (see `maskedGamma_*` below). -/
+def maskedGamma (p : Params α) (st : State α) (q : Vec α) (γ : α) (J : List Nat) : α :=
+  mGamma p (q.length == J.length) J st.pairs.reverse (if p.curvature then -1 else γ)
+
+/-- **Masked variant = the same construction restricted to the index subset.**  With CBFGS off,
+    `J` duplicate-free and in range (or full), over a carrier without NaN: `apply_masked` fails
+    exactly when its scaling is negative (no pair valid on `J` and no external `γ ≥ 0`);
+    otherwise the entries of the result on `J` are the dense BFGS operator of the history
+    restricted to `J` (pairs invalid on `J` skipped) applied to `q` restricted to `J`, and the
+    entries outside `J` are untouched. -/
+theorem applyMasked_eq_restricted (p : Params α) (st : State α) (hI : Inv st) (q : Vec α) (γ : α)
+    (J : List Nat) (hne : st.isEmpty = false)
+    (hcb : cbfgsEnabled p.cbfgsAlpha p.cbfgsEps = false)
+    (hnn : ∀ x : α, RealLike.isNaN x = false)
+    (hJ : JOK (q.length == J.length) J q.length) :
+    ∃ q', maskedOut (applyMasked p st q γ J)
+        = some (q', decide (¬ maskedGamma p st q γ J < 0)) ∧
+      (¬ maskedGamma p st q γ J < 0 →
+        G (q.length == J.length) J q' =
+          H (maskedGamma p st q γ J) (restrictHist p (q.length == J.length) J st.abs)
+            (G (q.length == J.length) J q) ∧
+        ((q.length == J.length) = false → ∀ j, j ∉ J → vget q' j = vget q j)) := by
+  simp only [maskedGamma, applyMasked, hne, hcb, Bool.false_eq_true, if_false]
+  have hrev : st.revIdx = st.fwdIdx.reverse := foreachRev_eq_reverse _ _ _ hI.idx_lt
+  have hfwd : st.fwdIdx = st.revIdx.reverse := by rw [hrev, List.reverse_reverse]
+  have hnd : st.revIdx.Nodup := by
+    rw [hrev, List.nodup_reverse]; exact foreachFwd_nodup _ _ _ hI.idx_lt
+  have hlt : ∀ i ∈ st.revIdx,
+      i < st.al.length ∧ i < (List.replicate st.al.length false).length := by
+    intro i hi
+    rw [hrev, List.mem_reverse] at hi
+    have := foreachFwd_lt _ _ _ hI.idx_lt i hi
+    rw [List.length_replicate, hI.al_len]
+    exact ⟨this, this⟩
+  have hmap : (st.revIdx.map fun i => st.slots.getD i default) = st.pairs.reverse :=
+    revIdx_map_slot st hI
+  have hg := mrev_gamma p (q.length == J.length) J st.slots st.revIdx
+    ⟨st.al, List.replicate st.al.length false, q, if p.curvature then -1 else γ⟩
+  rw [hmap] at hg
+  have hp := fun g => mpasses_eq_mTwo p (q.length == J.length) J st.slots g hnn st.revIdx
+    ⟨st.al, List.replicate st.al.length false, q, if p.curvature then -1 else γ⟩ hnd hlt
+  simp only [hmap, ← hfwd] at hp
+  have hhist : ((st.pairs.reverse.filter (validJ p (q.length == J.length) J)).map
+      fun c => (G (q.length == J.length) J c.s, G (q.length == J.length) J c.y))
+      = (restrictHist p (q.length == J.length) J st.abs).reverse := by
+    simp only [restrictHist, State.abs, List.filter_map, List.map_map, List.filter_reverse,
+      List.map_reverse]
+    rfl
+  simp only [← hg]
+  by_cases hneg : (List.foldl (maskedRevStep p (q.length == J.length) J st.slots)
+      ⟨st.al, List.replicate st.al.length false, q, if p.curvature then -1 else γ⟩ st.revIdx).γ < 0
+  · rw [if_pos hneg, show decide (¬ (List.foldl (maskedRevStep p (q.length == J.length) J st.slots)
+      ⟨st.al, List.replicate st.al.length false, q, if p.curvature then -1 else γ⟩ st.revIdx).γ < 0)
+        = false by simp [hneg]]
+    exact ⟨_, rfl, fun h => absurd hneg h⟩
+  · rw [if_neg hneg, show decide (¬ (List.foldl (maskedRevStep p (q.length == J.length) J st.slots)
+      ⟨st.al, List.replicate st.al.length false, q, if p.curvature then -1 else γ⟩ st.revIdx).γ < 0)
+        = true by simp [hneg]]
+    refine ⟨_, rfl, fun _ => ⟨?_, ?_⟩⟩
+    · rw [hp, G_mTwo _ _ _ _ _ _ hJ, hhist]
+      simp [H]
+    · intro hf j hj
+      rw [hp, hf]
+      exact mTwo_offJ _ _ _ _ _ _ hj
+
+/-- The scaling: an external `γ ≥ 0` (policy `BasedOnExternalStepSize`) is used as is. -/
+theorem maskedGamma_external (p : Params α) (st : State α) (q : Vec α) (γ : α) (J : List Nat)
+    (hc : p.curvature = false) (hγ : ¬ γ < 0) : maskedGamma p st q γ J = γ := by
+  simp only [maskedGamma, hc, Bool.false_eq_true, if_false]
+  exact mGamma_of_nonneg _ _ _ _ _ hγ
+
+/-- No pair valid on `J`: the scaling stays what was passed in (negative ⇒ the call fails). -/
+theorem maskedGamma_none_valid (p : Params α) (st : State α) (q : Vec α) (γ : α) (J : List Nat)
+    (h : ∀ c ∈ st.pairs, validJ p (q.length == J.length) J c = false) :
+    maskedGamma p st q γ J = if p.curvature then -1 else γ :=
+  mGamma_no_valid _ _ _ _ _ fun c hc => h c (List.mem_reverse.mp hc)
+
+/-- Otherwise (curvature policy or `γ < 0`) it is `⟨s,y⟩_J/⟨y,y⟩_J` of the newest pair valid on `J`
+    — the documented initial scaling on the subset — provided that ratio is non-negative. -/
+theorem maskedGamma_newest_valid (p : Params α) (st : State α) (q : Vec α) (γ : α) (J : List Nat)
+    (older newer : List (Slot α)) (c : Slot α) (hsplit : st.pairs = older ++ c :: newer)
+    (hγ : (if p.curvature then (-1 : α) else γ) < 0)
+    (hnewer : ∀ c' ∈ newer, validJ p (q.length == J.length) J c' = false)
+    (hc : validJ p (q.length == J.length) J c = true)
+    (hr : 0 ≤ dot (G (q.length == J.length) J c.s) (G (q.length == J.length) J c.y)
+            / dot (G (q.length == J.length) J c.y) (G (q.length == J.length) J c.y)) :
+    maskedGamma p st q γ J
+      = dot (G (q.length == J.length) J c.s) (G (q.length == J.length) J c.y)
+          / dot (G (q.length == J.length) J c.y) (G (q.length == J.length) J c.y) := by
+  simp only [maskedGamma, hsplit, List.reverse_append, List.reverse_cons, List.append_assoc,
+    List.singleton_append]
+  exact mGamma_newest_valid _ _ _ _ _ _ _ hγ (fun c' h => hnewer c' (List.mem_reverse.mp h)) hc hr
+
 /-! ## all interleavings: the operation sequence refines the history-level specification -/
 
 inductive Op (α : Type) where
   | updateSy (s y : Vec α) (pTp : α) (forced : Bool)
   | update (xk xn pk pn : Vec α) (positive forced : Bool)
   | apply (q : Vec α) (γ : α)
+  | applyMasked (q : Vec α) (γ : α) (J : List Nat)
   | reset
   | resize (n : Nat)
   | scaleY (f : α)
@@ -399,6 +541,7 @@ def step (p : Params α) (st : State α) : Op α → State α
   | .updateSy s y pTp forced => (updateSy p st s y pTp forced).1
   | .update xk xn pk pn pos forced => (update p st xk xn pk pn pos forced).1
   | .apply q γ => (C09.apply p st q γ).1
+  | .applyMasked q γ J => maskedState st (applyMasked p st q γ J)
   | .reset => reset st
   | .resize n => (resize p n).getD st
   | .scaleY f => scaleY st f
@@ -413,6 +556,7 @@ def specStep (p : Params α) (h : List (Vec α × Vec α)) : Op α → List (Vec
       let pTp := if cbfgsEnabled p.cbfgsAlpha p.cbfgsEps then sqNorm pn else 0
       if forced || updateValid p (dot y s) (sqNorm s) pTp then lastN p.memory (h ++ [(s, y)]) else h
   | .apply _ _ => h
+  | .applyMasked _ _ _ => h
   | .reset => []
   | .resize _ => []
   | .scaleY f => h.map fun sy => (sy.1, smul f sy.2)
@@ -448,6 +592,12 @@ theorem step_refines (p : Params α) (hm : 1 ≤ p.memory) (st : State α) (hG :
     obtain ⟨hI, hmm, hρ⟩ := hG
     refine ⟨⟨apply_inv p st hI q γ, ?_, apply_rhoOK p st q γ hρ⟩, apply_abs p st q γ⟩
     simp only [step]; unfold C09.apply; split_ifs <;> exact hmm
+  | applyMasked q γ J =>
+    obtain ⟨hI, hmm, hρ⟩ := hG
+    refine ⟨⟨applyMasked_inv p st hI q γ J, ?_, applyMasked_rhoOK p st q γ J hρ⟩,
+      applyMasked_abs p st q γ J⟩
+    obtain ⟨al, h, _⟩ := applyMasked_state p st q γ J
+    simp only [step, h]; exact hmm
   | reset =>
     obtain ⟨hI, hmm, hρ⟩ := hG
     exact ⟨⟨reset_inv st hI, hmm, reset_rhoOK st⟩, reset_abs st⟩
@@ -465,8 +615,8 @@ theorem step_refines (p : Params α) (hm : 1 ≤ p.memory) (st : State α) (hG :
       List.length_drop]
     omega
 
-/-- **Refinement for all interleavings** of update / forced update / apply / reset / resize /
-    scale_y, of any length, for any `memory ≥ 1`: the ring state always abstracts to the history
+/-- **Refinement for all interleavings** of update / forced update / apply / apply_masked / reset /
+    resize / scale_y, of any length, for any `memory ≥ 1`: the ring state always abstracts to the history
     the dense model has, and stays `Good` (so `apply_eq_dense` applies at every point). -/
 theorem run_refines (p : Params α) (hm : 1 ≤ p.memory) (ops : List (Op α)) (st : State α)
     (hG : Good p st) :
@@ -509,59 +659,6 @@ theorem wraparound_keeps_most_recent (p : Params α) (hm : 1 ≤ p.memory)
     have := ih _ (pre ++ [sy]) g1 (by
       rw [g2]; simp only [Bool.true_or, if_true]; rw [h, lastN_lastN_snoc])
     simpa using this
-
-/-! ## (e) the masked variant — partial -/
-
-/-- The state `apply_masked` leaves behind (`threw`: unchanged). -/
-def maskedState (st : State α) : MaskedResult α → State α
-  | .threw => st
-  | .done st' _ _ => st'
-
-theorem map_set_getD_self {β γ : Type} (l : List β) (f : β → γ) (i : Nat) (d x : β)
-    (hx : f x = f (l.getD i d)) : (l.set i x).map f = l.map f := by
-  apply List.ext_getElem?
-  intro j
-  by_cases hij : i = j
-  · subst hij
-    by_cases hi : i < l.length
-    · simp [List.getElem?_set, hi, hx, List.getD_eq_getElem?_getD]
-    · simp [List.getElem?_set, hi]
-  · simp [List.getElem?_set, hij]
-
-theorem maskedRevStep_sy (p : Params α) (fullJ : Bool) (J : List Nat) (a : MaskAcc α) (i : Nat) :
-    (maskedRevStep p fullJ J a i).slots.map (fun c => (c.s, c.y)) = a.slots.map fun c => (c.s, c.y) := by
-  simp only [maskedRevStep]
-  split_ifs <;> exact map_set_getD_self _ _ _ (default : Slot α) _ rfl
-
-theorem abs_of_map_eq (st st' : State α) (h : st'.slots.map (fun c => (c.s, c.y)) = st.slots.map fun c => (c.s, c.y))
-    (hi : st'.idx = st.idx) (hf : st'.full = st.full) : st'.abs = st.abs := by
-  simp only [State.abs, State.pairs, hi, hf]
-  split_ifs <;> simp only [List.map_append, List.map_drop, List.map_take, h]
-
-/-- `apply_masked` never changes the stored `(s, y)` pairs, `idx` or `full`: the abstract history is
-    the same afterwards.  (It does change the stored `ρ`: there is no `applyMasked_rhoOK`, and the
-    real code shows the consequence — DESIGN §7-I.) -/
-theorem applyMasked_abs (p : Params α) (st : State α) (q : Vec α) (γ : α) (J : List Nat) :
-    (maskedState st (applyMasked p st q γ J)).abs = st.abs := by
-  have key : ∀ (is : List Nat) (a : MaskAcc α),
-      (is.foldl (maskedRevStep p (q.length == J.length) J) a).slots.map (fun c => (c.s, c.y))
-        = a.slots.map fun c => (c.s, c.y) := by
-    intro is
-    induction is with
-    | nil => intro a; rfl
-    | cons i is ih => intro a; rw [List.foldl_cons, ih, maskedRevStep_sy]
-  simp only [applyMasked]
-  split_ifs <;> simp only [maskedState] <;> first | rfl | exact abs_of_map_eq _ _ (key _ _) rfl rfl
-
-/-
-  Not proved (full statement kept): `applyMasked_eq_restricted` —
-    for `J` duplicate-free and in range, CBFGS off, with `K` = the stored pairs that pass
-    `updateValid p ⟨y,s⟩_J ⟨s,s⟩_J 0`, the entries of the result on `J` equal
-    `H γ₀ (K restricted to J) (q restricted to J)`, where `γ₀ = γ` (external policy, `γ ≥ 0`) or
-    `⟨s,y⟩_J/⟨y,y⟩_J` of the newest pair of `K`; entries outside `J` are unchanged; the call fails iff
-    `K = []` and no external `γ ≥ 0` is given.  Checked on the real code by the exact-rational
-    monitor of `checks/c09.py` (every `appm` line) and modelled bit-exactly by `applyMasked`.
--/
 
 /-! ## non-vacuity: concrete instances over ℚ -/
 
